@@ -44,9 +44,18 @@ SPEC = {
                    "exits, panics of advance) and comparing every observable, and by asserting the property "
                    "statement on the real code against an independent shadow log",
     "level_text": "proof (counting / capacity / release / index arithmetic) + differential test; memory-safety half partial",
-    "level_note": "The counting, capacity, release and index-arithmetic statements are machine-checked for all "
-                  "stores and programs. The memory-safety half of C19 (no out-of-bounds or use-after-free access "
-                  "by the compiled unsafe code) cannot be exhibited by a Gallina model and is only supported: "
+    "level_note": "The counting, capacity, release, stability and index-arithmetic statements are machine-checked "
+                  "for all stores and programs. The memory-safety half of C19 (no out-of-bounds or use-after-free "
+                  "access by the compiled unsafe code) cannot be exhibited by a Gallina model and is only supported: "
                   "proved index arithmetic, rustc's lifetime checking, and the harness exercising the real unsafe "
-                  "code (no sanitizer run is wired into ./check).",
+                  "code. No sanitizer run is wired into ./check; run once by hand (not part of the check): "
+                  "`cargo +nightly miri run` of harness/src/bin/buffer.rs (`quick 1 <dir> --scale 5 --sweep 20`, 2941 "
+                  "cases) with -Zmiri-disable-stacked-borrows reports no undefined behaviour (no out-of-bounds, "
+                  "use-after-free or uninitialised read) and its results equal the model's, and so does the run under "
+                  "the Tree Borrows aliasing model (-Zmiri-tree-borrows); with the default "
+                  "(experimental) Stacked Borrows aliasing model Miri does flag the crate's design of keeping two "
+                  "mutable paths to the same memory: a slice returned earlier by initialized() is invalidated by a "
+                  "later unique reborrow of memory containing it (first hit: an ArrayVec<[u8; 1]> store under cap_at, "
+                  "the retag covers the whole inline ArrayVec) - an aliasing-model violation, not an "
+                  "out-of-bounds or use-after-free access, hence outside the statement of C19.",
 }
